@@ -78,19 +78,20 @@ func (t *Target) Load() (*ssa.Program, *ssa.Package, error) {
 
 // SymRun is one symbolic execution of a harness.
 type SymRun struct {
-	Harness       string
-	Params        map[string]int
-	LoopBound     int
-	LoopBounds    map[string]int
-	RecBound      int
-	Concrete      map[string]int64 // fix all nondets (translator validation)
-	Prune         bool
-	ForkFuncs     []string
-	InitPkgs      func(string) bool
-	InitExtra     []string
-	SkipInitFuncs func(string) bool
-	Intrinsics    map[string]engine.Intrinsic
-	Setup         func(e *engine.Engine)
+	Harness          string
+	Params           map[string]int
+	LoopBound        int
+	LoopBounds       map[string]int
+	RecBound         int
+	Concrete         map[string]int64 // fix all nondets (translator validation)
+	Prune            bool
+	SymbolicMapOrder bool
+	ForkFuncs        []string
+	InitPkgs         func(string) bool
+	InitExtra        []string
+	SkipInitFuncs    func(string) bool
+	Intrinsics       map[string]engine.Intrinsic
+	Setup            func(e *engine.Engine)
 }
 
 type SymResult struct {
@@ -138,6 +139,7 @@ func Exec(prog *ssa.Program, pkg *ssa.Package, modPrefix string, r SymRun) (*Sym
 	}
 	cfg := engine.Config{Trace: os.Getenv("GV_TRACE") != "", LoopBound: r.LoopBound, LoopBounds: r.LoopBounds, RecBound: r.RecBound, PruneBranch: r.Prune, Intrinsics: r.Intrinsics}
 	cfg.InitPkgs = r.InitPkgs
+	cfg.SymbolicMapOrder = r.SymbolicMapOrder
 	cfg.SkipInitFuncs = r.SkipInitFuncs
 	cfg.ForkFuncs = map[string]bool{}
 	for _, f := range r.ForkFuncs {
